@@ -131,6 +131,13 @@ func malformedAllStream(cfg *Config) *hx.Stats {
 		for n := 0; n < len(reg); n++ {
 			try(id, reg[:n], "truncation")
 		}
+		// directed: count fields vs. array lengths.  For every small CBOR array (k items) grow it by
+		// duplicating its first item, alone and together with every earlier byte that holds k as a
+		// small unsigned integer bumped to k+1 (a count field that "agrees" with the longer array
+		// while a third length - e.g. the number of keys - does not).
+		for _, m := range growArrayMutants(reg, 400) {
+			try(id, m, "array-growth")
+		}
 		for k := 0; k < perReg; k++ {
 			b := append([]byte(nil), reg...)
 			switch rng.Intn(6) {
@@ -166,4 +173,107 @@ func malformedAllStream(cfg *Config) *hx.Stats {
 	st.Samples = append(st.Samples, fmt.Sprintf("%d registers (map data/index/collision-group, inlined arrays/maps, wrappers, compact maps, large values, array data/index): every truncation + %d mutations each", st.Programs, perReg))
 	atree.VerifSetThreshold(1024)
 	return st
+}
+
+// cborItemLen returns the encoded length of the CBOR data item starting at b[0] (definite lengths
+// only), or 0 when it does not parse within b.
+func cborItemLen(b []byte, depth int) int {
+	if len(b) == 0 || depth > 16 {
+		return 0
+	}
+	major, ai := b[0]>>5, b[0]&0x1f
+	var arg uint64
+	n := 1
+	switch {
+	case ai < 24:
+		arg = uint64(ai)
+	case ai == 24:
+		if len(b) < 2 {
+			return 0
+		}
+		arg, n = uint64(b[1]), 2
+	case ai == 25:
+		if len(b) < 3 {
+			return 0
+		}
+		arg, n = uint64(b[1])<<8|uint64(b[2]), 3
+	case ai == 26:
+		if len(b) < 5 {
+			return 0
+		}
+		arg, n = uint64(b[1])<<24|uint64(b[2])<<16|uint64(b[3])<<8|uint64(b[4]), 5
+	case ai == 27:
+		if len(b) < 9 {
+			return 0
+		}
+		for i := 1; i <= 8; i++ {
+			arg = arg<<8 | uint64(b[i])
+		}
+		n = 9
+	default:
+		return 0
+	}
+	switch major {
+	case 0, 1, 7:
+		return n
+	case 2, 3:
+		if arg > uint64(len(b)-n) {
+			return 0
+		}
+		return n + int(arg)
+	case 4, 5:
+		items := arg
+		if major == 5 {
+			items *= 2
+		}
+		if items > uint64(len(b)) {
+			return 0
+		}
+		for i := uint64(0); i < items; i++ {
+			l := cborItemLen(b[n:], depth+1)
+			if l == 0 {
+				return 0
+			}
+			n += l
+		}
+		return n
+	case 6:
+		l := cborItemLen(b[n:], depth+1)
+		if l == 0 {
+			return 0
+		}
+		return n + l
+	}
+	return 0
+}
+
+// growArrayMutants: see the call site.
+func growArrayMutants(reg []byte, limit int) [][]byte {
+	var out [][]byte
+	for j := 0; j < len(reg) && len(out) < limit; j++ {
+		if reg[j] < 0x81 || reg[j] > 0x96 {
+			continue
+		}
+		k := int(reg[j] - 0x80)
+		if cborItemLen(reg[j:], 0) == 0 {
+			continue
+		}
+		first := cborItemLen(reg[j+1:], 0)
+		if first == 0 {
+			continue
+		}
+		grown := append([]byte(nil), reg[:j]...)
+		grown = append(grown, reg[j]+1)
+		grown = append(grown, reg[j+1:j+1+first]...)
+		grown = append(grown, reg[j+1:]...)
+		out = append(out, grown)
+		for i := 0; i < j && len(out) < limit; i++ {
+			if int(reg[i]) == k {
+				m := append([]byte(nil), grown...)
+				m[i]++
+				out = append(out, m)
+			}
+		}
+	}
+	return out
 }
